@@ -41,6 +41,9 @@ type input struct {
 	Rest   int    `json:"rest"`   // bytes following the block in the source
 	OExtra int    `json:"oextra"` // cap(out) - len(out)
 	Warm   bool   `json:"warm"`   // the encoder has compressed and decompressed another block before
+	// the same Encoder is first asked to decompress a DAMAGED copy of the emitted bytes ("magic": bit flip in the
+	// first byte, "mid": in the middle, "trunc": last 3 bytes missing); the result of that call is ignored
+	PreBad string `json:"pre_bad,omitempty"`
 }
 
 type observed struct {
@@ -214,6 +217,19 @@ func execCase(in input, work string) observed {
 		src = &chunkReader{b: stream, f: func(k int) int { return min(k, 1) }}
 	default:
 		src = bytes.NewReader(stream)
+	}
+	if in.PreBad != "" && len(em) > 3 {
+		bad := append([]byte{}, em...)
+		switch in.PreBad {
+		case "magic":
+			bad[0] ^= 0x40
+		case "mid":
+			bad[len(bad)/2] ^= 0x40
+		default:
+			bad = bad[:len(bad)-3]
+		}
+		scratchOut := make([]byte, len(data))
+		vhlib.Recover(func() { _, _ = e.Decompress(make([]byte, len(bad)), scratchOut, bytes.NewReader(bad)) })
 	}
 	var dn int
 	var derr error
@@ -400,6 +416,12 @@ func gen(r *vhlib.Rand, i int, o vhlib.Opts) any {
 	if i < 36+nRelPrefix+nLadder+nWindows {
 		return windowCase(i-36-nRelPrefix-nLadder, o.Search || o.Tier == "thorough")
 	}
+	if i < 36+nRelPrefix+nLadder+nWindows+24 { // a failed Decompress must not spoil the Encoder: cfg x {lz4, zstd} x mode
+		k := i - 36 - nRelPrefix - nLadder - nWindows
+		return input{Cfg: cfgNames[k%4], Enc: []string{"zstd", "lz4"}[(k/4)%2], Level: 6, Kind: []string{"text", "counters", "tile"}[k%3],
+			Size: 700 + 900*k, DSeed: uint64(9000 + k), HasDst: true, Src: []string{"bytes", "file"}[k%2], SLen: 8192, SCap: 8192,
+			PreBad: []string{"magic", "mid", "trunc"}[k/8]}
+	}
 	in := input{Cfg: vhlib.Pick(r, cfgNames), HasDst: true, DSeed: r.U64() >> 16}
 	switch x := r.Intn(100); {
 	case x < 15:
@@ -486,6 +508,9 @@ func gen(r *vhlib.Rand, i int, o vhlib.Opts) any {
 	in.Rest = vhlib.Pick(r, []int{0, 0, 0, 5, 1000})
 	in.OExtra = vhlib.Pick(r, []int{0, 0, 64, 8192})
 	in.Warm = r.Chance(30)
+	if in.Enc != "null" && in.Size <= 1<<20 && r.Chance(10) {
+		in.PreBad = vhlib.Pick(r, []string{"magic", "mid", "trunc"})
+	}
 	if in.Enc != "null" && r.Chance(4) {
 		in.HasDst = false
 	}
@@ -608,6 +633,9 @@ func run(raw json.RawMessage, o vhlib.Opts) (*vhlib.Case, error) {
 		Nontrivial: ob.CClass == "ok" && in.HasDst && in.Size > 0}
 	if !in.HasDst {
 		c.Tags = append(c.Tags, "dst-nil")
+	}
+	if in.PreBad != "" {
+		c.Tags = append(c.Tags, "after-failed-decompress:"+in.PreBad)
 	}
 	if in.Warm {
 		c.Tags = append(c.Tags, "warm")
